@@ -46,6 +46,7 @@ type Case struct {
 	Sizes    [][2]int   `json:"sizes"`
 	Jitter   int64      `json:"jitter"`
 	Preload  int        `json:"preload"`
+	HookMs   int        `json:"hook_ms"` // how long the media hook runs (keys arrive while it is still running)
 }
 
 func checkStress(c Case) vrep.Result {
@@ -56,6 +57,9 @@ func checkStress(c Case) vrep.Result {
 	expand := func(s string) string { return sim.Expand(strings.ReplaceAll(s, "%P%", prefix), -1, prefix) }
 	config.Parsed.Network.Context = c.Preload
 	config.Parsed.Media.Hook = []string{"true"}
+	if c.HookMs > 0 {
+		config.Parsed.Media.Hook = []string{"sleep", fmt.Sprintf("%d.%03d", c.HookMs/1000, c.HookMs%1000)}
+	}
 	feeds := map[string][]string{}
 	for name, members := range c.World.Feeds {
 		for _, a := range members {
@@ -129,11 +133,12 @@ func checkStress(c Case) vrep.Result {
 	return vrep.Result{Classes: []string{fmt.Sprintf("frames>=%d", (frames/20)*20)}, Nontrivial: len(c.Keys) >= 5 && frames > 5}
 }
 
-var stressKeys = []byte{'j', 'j', 'j', 'k', 'g', ' ', ' ', 'c', 'r', 'a', 'h', 'l', 'o', 'p', 'b', '1', '2', '.', '\r', 27, 127, ':', 'x'}
+var stressKeys = []byte{'j', 'j', 'j', 'k', 'g', ' ', ' ', 'c', 'r', 'a', 'h', 'l', 'o', 'o', 'p', 'p', 'b', '1', '1', '2', '.', '\r', '\r', 27, 27, 127, ':', 'x'}
 
 func genStress(t *rapid.T) Case {
 	h := vui.GenHistCase(t)
-	c := Case{World: h.World, Start: h.Start, ResizeMs: rapid.IntRange(1, 25).Draw(t, "resizems"), Jitter: int64(rapid.IntRange(1, 1<<30).Draw(t, "jitter")), Preload: rapid.IntRange(1, 5).Draw(t, "preload")}
+	c := Case{World: h.World, Start: h.Start, ResizeMs: rapid.IntRange(1, 25).Draw(t, "resizems"), Jitter: int64(rapid.IntRange(1, 1<<30).Draw(t, "jitter")), Preload: rapid.IntRange(1, 5).Draw(t, "preload"),
+		HookMs: rapid.SampledFrom([]int{0, 0, 5, 20, 60}).Draw(t, "hookms")}
 	for n := rapid.IntRange(2, 5).Draw(t, "nsizes"); n > 0; n-- {
 		c.Sizes = append(c.Sizes, [2]int{rapid.IntRange(1, 120).Draw(t, "w"), rapid.IntRange(2, 50).Draw(t, "h")})
 	}
